@@ -27,7 +27,7 @@ ASSUMPTIONS = [
     "'m+1 orthonormal columns' is read as: the first min(m'+1, g) columns are orthonormal - no implementation can extend an exhausted Krylov space canonically",
     "tolerances relative to max(1e-10, 10 tol) * max(1,|M|) because cola clips normalisations at tol/2",
 ]
-SUBS = ["relation", "relation", "relation", "padded", "eigs", "batched"]
+SUBS = ["relation", "relation", "relation", "padded", "eigs", "batched", "repeat_large", "eigs_singular"]
 
 
 @st.composite
@@ -212,6 +212,47 @@ def check(case, out):
         except Exception as e:
             out.fail(sub, site, oracle.exc_man(e), e)
             return None
+
+    if sub == "eigs_singular":
+        # a singular operator whose Krylov sequence from e_1 ends in the null space without an earlier breakdown: lower
+        # bidiagonal with a zero last diagonal entry (or the nilpotent shift): H then has a genuinely zero last column, and
+        # arnoldi_eigs with >= n steps still returns all n eigenvalues (the diagonal)
+        rs = np.random.default_rng(case["seed"])
+        nn = max(2, min(n, 8))
+        d = (1.0 + np.arange(nn) + 0.3 * rs.random(nn)) * (0.0 if case["seed"] % 3 == 0 else 1.0)
+        d[-1] = 0.0
+        Mb = np.diag(d) + np.diag(1.0 + rs.random(nn - 1), -1)
+        e1 = np.zeros(nn)
+        e1[0] = 1.0
+        res = call(lambda: arnoldi_eigs(cola.ops.Dense(Mb), e1.copy(), max_iters=nn + case["seed"] % 4, tol=tol))
+        if res is None:
+            return
+        th = np.sort_complex(np.asarray(res[0]))
+        w = np.sort_complex(np.linalg.eigvals(Mb))
+        if th.shape[0] != nn:
+            out.fail(sub, "arnoldi:eigs:singular", "spurious_or_missing_eigenvalues", f"{th.shape[0]} values returned for a {nn} x {nn} operator: {th[:4]}")
+        elif np.abs(np.sort(np.abs(th)) - np.sort(np.abs(w))).max() > 1e-6 * max(1.0, np.abs(w).max()):
+            out.fail(sub, "arnoldi:eigs:singular", "wrong_spectrum", f"{th} vs {w}")
+        return
+
+    if sub == "repeat_large":
+        # the padded regime of the default cap (Arnoldi() runs with max_iters = 1000): two factorisations with identical
+        # shapes; the first result must still be the first factorisation after the second call
+        big = 320 + case["seed"] % 200
+        v2 = np.random.default_rng(case["seed"] + 5).standard_normal(n).astype(v.real.dtype if not np.iscomplexobj(v) else v.dtype)
+        r1 = call(lambda: arnoldi(A, v.copy(), max_iters=big, tol=max(tol, 1e-12)))
+        if r1 is None:
+            return
+        Q1, H1 = dense(r1[0]).copy(), dense(r1[1]).copy()
+        r2 = call(lambda: arnoldi(A, v2.copy(), max_iters=big, tol=max(tol, 1e-12)))
+        if r2 is None:
+            return
+        Q1b, H1b = dense(r1[0]), dense(r1[1])
+        if not (np.array_equal(Q1, Q1b) and np.array_equal(H1, H1b)):
+            out.fail(sub, "arnoldi:repeat_large", "earlier_result_changed", f"the factorisation returned by the first call changed after a second call (max_iters={big}, n={n})")
+            return
+        verify(out, sub, site, M, v, Q1b, H1b, big, max(tol, 1e-12), min(g, g_tight))
+        return
 
     if sub in ("relation", "padded"):
         if case.get("pbar"):  # the progress-bar option runs the same iteration through another loop wrapper
